@@ -133,6 +133,16 @@ fn one_run(args: &Args, rng: &mut Rng, run: u64) -> (Vec<vcore::trace::Item>, se
                 2 => {
                     // prefer a moment at which the connection is engaged with others, and follow up
                     // with traffic that makes the broker send to it (it does not know yet)
+                    // "terminated while its requests are still queued in the broker": the victim's own
+                    // requests are forwarded into the broker's queue, then its task is dropped
+                    if rng.chance(1, 2) {
+                        for msg in pools.gen_own_requests(rng, i) {
+                            if w.send(i, msg) {
+                                sent += 1;
+                            }
+                        }
+                        w.pump_conn(i, 6);
+                    }
                     w.drop_conn_task(i);
                     if let Some(d) = w.last_dump() {
                         pools.view = broker_drivers::View::from_dump(&d);
